@@ -314,9 +314,32 @@ fn subsets(alpha: &[(&str, &str)], lo: usize, hi: usize, rot: usize, must_contai
     }
 }
 
+/// the configuration whose library is the sub-directory `d`, with every other name of the quick
+/// alphabet, and with every pair of its first four notes (notes inside and outside the library)
+fn library_in_subdirectory_trees(emit: &mut dyn FnMut(Vec<FileSpec>)) {
+    let spec = |i: usize| FileSpec {
+        name: ALPHA_QUICK[i].0.to_string(),
+        kind: if ALPHA_QUICK[i].1.is_empty() { NOTE_KINDS[i % NOTE_KINDS.len()].to_string() } else { ALPHA_QUICK[i].1.to_string() },
+    };
+    let cl = || FileSpec { name: ".iwe/config.toml".to_string(), kind: "CL".to_string() };
+    for i in 0..ALPHA_QUICK.len() {
+        if ALPHA_QUICK[i].0 != ".iwe/config.toml" {
+            emit(vec![spec(i), cl()]);
+        }
+    }
+    for i in 0..4 {
+        for j in i + 1..4 {
+            emit(vec![spec(i), spec(j), cl()]);
+        }
+    }
+}
+
 fn trees(tier: Tier, emit: &mut dyn FnMut(Vec<FileSpec>)) {
     match tier {
-        Tier::Quick => subsets(ALPHA_QUICK, 1, 3, 0, 0, emit),
+        Tier::Quick => {
+            subsets(ALPHA_QUICK, 1, 3, 0, 0, emit);
+            library_in_subdirectory_trees(emit);
+        }
         Tier::Thorough => {
             // 1. the quick alphabet, <= 4 files, all three content rotations
             for rot in 0..3 {
@@ -1325,7 +1348,7 @@ impl Engine for C19 {
     }
     fn bound(&self, tier: Tier) -> String {
         match tier {
-            Tier::Quick => format!("all trees of 1..=3 files over {} names x faults {:?}; every traced syscall index k and every byte limit L of each tree; <= {} rounds per loop", ALPHA_QUICK.len(), FAULTS_QUICK, MAX_ROUNDS_QUICK),
+            Tier::Quick => format!("all trees of 1..=3 files over {} names, plus the configuration with the library in a sub-directory with every other name and with every pair of the first four notes, x faults {:?}; every traced syscall index k and every byte limit L of each tree; <= {} rounds per loop", ALPHA_QUICK.len(), FAULTS_QUICK, MAX_ROUNDS_QUICK),
             Tier::Thorough => format!(
                 "all trees of 1..=4 files over the {} quick names x 3 content rotations; all trees of 1..=2 files (3 rotations) and of 3 files (rotation 0) over {} names that contain one of the {} additional names; x faults {:?}; every traced syscall index k and every byte limit L of each tree; <= {} rounds per loop",
                 ALPHA_QUICK.len(),
